@@ -9,6 +9,8 @@ var verifHarnesses = map[string]func(){
 	"VerifH_C01_L2_workMulti": VerifH_C01_L2_workMulti,
 	"VerifH_C03_events":        VerifH_C03_events,
 	"VerifH_C03_twoEvents":     VerifH_C03_twoEvents,
+	"VerifH_C03_bystander":     VerifH_C03_bystander,
+	"VerifH_C03_listForm":      VerifH_C03_listForm,
 	"VerifH_C02_L1_naming":     VerifH_C02_L1_naming,
 	"VerifH_C02_L2_idempotent": VerifH_C02_L2_idempotent,
 	"VerifH_C04_L2_restart": VerifH_C04_L2_restart,
